@@ -119,8 +119,8 @@ def correspondence(ctx, model_ok=True):
     rng = ctx.rng.fork("c19")
     failures = []
     broken = []
-    bits = gen_bits(rng.fork("bits"), 40000 if ctx.thorough else 3000)
-    texts = gen_texts(rng.fork("texts"), 20000 if ctx.thorough else 2000)
+    bits = gen_bits(rng.fork("bits"), 40000 if ctx.thorough else 25000)
+    texts = gen_texts(rng.fork("texts"), 20000 if ctx.thorough else 15000)
     # programs of 100 numbers each: print(x), round trip through String.from + to_num, integrality
     batch = 100
     prog_list, meta = [], []
@@ -142,7 +142,7 @@ def correspondence(ctx, model_ok=True):
             L.append("print(\"%s\".to_num());" % t)
         prog_list.append(("text%d" % i, "\n".join(L) + "\n", {}))
         meta.append(("text", chunk))
-    tn = gen_to_num_texts(rng.fork("tonum"), 6000 if ctx.thorough else 800)
+    tn = gen_to_num_texts(rng.fork("tonum"), 6000 if ctx.thorough else 5000)
     for i in range(0, len(tn), batch):
         chunk = tn[i:i + batch]
         prog_list.append(("tonum%d" % i, "\n".join("try { print(\"%s\".to_num()); } catch e { print(\"err \" + String.from(type(e) == ValueError)); }" % t for t in chunk) + "\n", {}))
